@@ -2,8 +2,34 @@
 import os
 from oblib import ob
 
-BOUNDS = {"quick": "", "thorough": ""}
-ASSUMPTIONS = []
+_COMMON = (
+    "Only the sequential-history and aliasing clauses, and only for package jsontext (its five sync.Pools of coders, Encoder.Reset, "
+    "Decoder.Reset). The engine's sync.Pool hands back the most recently Put coder (LIFO), so the later call re-uses exactly the coder the "
+    "earlier call left behind; the reference run of the same call uses pool policy 'fresh' (Get always calls New). "
+    "hist: earlier call A of ANY kind among {IsValid, Format, Compact, Indent, Canonicalize, AppendFormat([]byte), AppendFormat(string), "
+    "pooled buffered decoder driven by ReadToken until error/EOF, pooled buffered encoder driven by WriteToken until error, pooled streaming "
+    "decoder (ReadValue then ReadToken*)} with any of 4 option sets (AllowDuplicateNames; WithIndent+WithIndentPrefix+SpaceAfterComma; "
+    "ReorderRawObjects+AllowDuplicateNames; none) on a templated input whose holes are symbolic bytes of the structural alphabet "
+    "{ } [ ] : , \" a 1 space (templates listed in the obligation ids: complete objects with symbolic names, objects truncated inside a nested "
+    "object, arrays truncated after a member, free bytes, a 67-member object (map-backed namespace)%s); then call B (kind, option set and template in the id) on an independent symbolic "
+    "input: verdict, bytes, token count, error class, SyntacticError.ByteOffset/JSONPointer/inner error identical to the fresh run. "
+    "hist3: two earlier calls. strikes: one >4KiB result then 7 small calls (buffer-utilisation statistics incl. discard). "
+    "alias: results of AppendFormat/Clone/Format family unchanged after a later call on the recycled coder and after the caller overwrites the "
+    "input buffer (AppendFormat, Clone). reset: Decoder/Encoder used on input 1 (%s calls, stopped anywhere incl. after an error inside an object; "
+    "chunk reader or *bytes.Buffer; sink or *bytes.Buffer) then Reset == new coder on input 2 (all results, errors, offsets, depths, pointers, bytes delivered). "
+    "OUTSIDE: goroutine interleavings and data races (the engine is sequential), typed Marshal/Unmarshal and the arshaler/type caches, string interning cache, "
+    "panicking user code, 1 MiB documents, Deterministic(true) map ordering, cross-process determinism, pool behaviour other than LIFO reuse (e.g. GC emptying a pool "
+    "is the 'fresh' case), inputs outside the templates/alphabet, histories longer than 2 earlier calls (3 including the reference run, whose coder A recycles).")
+BOUNDS = {
+    "quick": _COMMON % ("", "<=3+2"),
+    "thorough": _COMMON % (", free bytes up to 3, an error exit 1101 objects deep (beyond the stack sizes that reset keeps)", "<=4+4"),
+}
+ASSUMPTIONS = [
+    "sync.Pool modelled as a LIFO stack per pool (Get = most recently Put object, else New); PoolFresh makes Get call New",
+    "call kinds decLoop/encLoop/streamDec are harness code calling getBufferedDecoder/getBufferedEncoder/getStreamingDecoder + put*, i.e. the pool "
+    "protocol package json follows through jsontext.Internal (json itself needs reflect and is not executed)",
+    "for the in-place Format family the buffer passed in is the buffer handed back, so 'caller overwrites its input' is only checked for AppendFormat and Clone",
+]
 
 P = "jsontext"
 # call kinds (zz18Call)
@@ -31,11 +57,12 @@ def obligations(tier):
     # ---- hist: A = any call kind, any of the option sets {1,4,7,0}, on templates that end on every kind of exit
     LONG = '@names66@"?":0}'      # 67 members: the namespace switches to its map representation
     DEEP = '@deep1100@{"?":'      # error exit 1101 objects deep: stacks beyond the sizes that reset keeps
-    TA = ['{"?":1,"?":2}', '{"?":{"?":', '[{"?":1},', '??', LONG] + ([] if q else ['???', '{"?":[{"?":1}],"?":{}}', '[{"?":1,"?":{', '{"?":1}?', DEEP])
+    TA = ['{"?":1,"?":2}', '{"?":{"?":', '??', LONG] + ([] if q else ['[{"?":1},', '???', '{"?":[{"?":1}],"?":{}}', '[{"?":1,"?":{', '{"?":1}?', DEEP])
     TB = [(ISVALID, 0, '{"?":1,"?":2}'), (FORMAT, 0, '{"a?":1,"?":2}'), (FORMAT, 3, '[{"?":1}]'), (CANON, 0, '{"?":2,"?":1}'),
-          (APPEND, 5, '??'), (DECLOOP, 0, '{"?":{"?":'), (ENCLOOP, 0, '{"?":1,"a?":2}'), (INDENT, 0, '[?,?]'), (STREAMDEC, 0, '{"a?":?}')]
+          (DECLOOP, 0, '{"?":{"?":'), (ENCLOOP, 0, '{"?":1,"a?":2}')]
     if not q:
-        TB += [(COMPACT, 0, ' ? ?'), (APPENDSTR, 6, '"?",?'), (ISVALID, 2, '???'), (FORMAT, 4, '{"?":[?]}'), (CANON, 1, '{"?":1,"?":{"?":1}}'),
+        TB += [(APPEND, 5, '??'), (INDENT, 0, '[?,?]'), (STREAMDEC, 0, '{"a?":?}'),
+               (COMPACT, 0, ' ? ?'), (APPENDSTR, 6, '"?",?'), (ISVALID, 2, '???'), (FORMAT, 4, '{"?":[?]}'), (CANON, 1, '{"?":1,"?":{"?":1}}'),
                (DECLOOP, 1, '[{"?":1},'), (ENCLOOP, 3, '[{"?":?'), (ISVALID, 0, '{"a?":1}'), (FORMAT, 0, '???'), (APPEND, 0, '{"a?":{"a?":1}}')]
     for tb in TB:
         for ta in TA:
@@ -46,21 +73,23 @@ def obligations(tier):
     for (opB, optB, tB) in ([(FORMAT, 3, '[?]')] if q else [(FORMAT, 3, '[?]'), (APPEND, 0, '{"?":?}'), (CANON, 0, '{"?":1,"?":2}')]):
         L.append(ob("strikes/levels=1100/k=7/B=%s,o%d,%s" % (NAMES[opB], optB, tB), P, "VerifC18Strikes", [1100, 7, opB, optB, tB], step_limit=50_000_000, covers=["end", "buffer-was-discarded"]))
     # ---- hist3: two earlier calls of any kind / option set
-    for (opB, optB, tB) in ([(ISVALID, 0, '{"?":1}'), (FORMAT, 3, '[?]')] if q else [(ISVALID, 0, '{"?":1}'), (FORMAT, 3, '[?]'), (CANON, 0, '{"?":1}'), (DECLOOP, 0, '{"?":')]):
+    for (opB, optB, tB) in ([(ISVALID, 0, '{"?":1}')] if q else [(ISVALID, 0, '{"?":1}'), (FORMAT, 3, '[?]'), (CANON, 0, '{"?":1}'), (DECLOOP, 0, '{"?":')]):
         for (t1, t2) in ([('{"?":', '[?')] if q else [('{"?":', '[?'), ('{"?":1}', '{"?":{'), ('??', '{"?":1,')]):
             L.append(ob("hist3/A1=any,%s/A2=any,%s/B=%s,o%d,%s" % (t1, t2, NAMES[opB], optB, tB), P, "VerifC18Hist3", [t1, t2, 3, opB, optB, tB, 3], covers=["B-ok", "B-fails"]))
     # ---- alias
     AL = [(APPEND, 0, '[?,"?"]'), (APPENDSTR, 3, '{"?":?}'), (CLONE, 0, '???'), (FORMAT, 3, '[?,?]'), (CANON, 0, '{"?":2,"?":1}'), (INDENT, 0, '{"?":[?]}'), (COMPACT, 0, ' [ ? ] ')]
     BL = [(FORMAT, 4, '{"?":[1,2,3]}'), (ISVALID, 0, '[?,?]')] if q else [(FORMAT, 4, '{"?":[1,2,3]}'), (ISVALID, 0, '[?,?]'), (CANON, 0, '{"?":2,"?":1}'), (APPEND, 3, '[[?]]'), (ENCLOOP, 0, '[?,?')]
-    for (opA, optA, tA) in AL:
-        for (opB, optB, tB) in BL:
+    for i, (opA, optA, tA) in enumerate(AL):
+        for j, (opB, optB, tB) in enumerate(BL):
+            if q and (i + j) % 2 == 1:
+                continue
             L.append(ob("alias/A=%s,o%d,%s/B=%s,o%d,%s" % (NAMES[opA], optA, tA, NAMES[opB], optB, tB), P, "VerifC18Alias", [opA, optA, tA, 3, opB, optB, tB, 3], covers=["nonempty"]))
     for (oA, tA, oB, tB) in [(0, '[?,?]', 3, '{"?":?}'), (4, '{"?":[?]}', 0, '??')]:
         L.append(ob("aliasB/A=o%d,%s/B=o%d,%s" % (oA, tA, oB, tB), P, "VerifC18AliasB", [oA, tA, 3, oB, tB, 3], covers=["nonempty"]))
     # ---- Reset of public coders: tmpl1, opt1, reader/writer kind 1, calls1, tmpl2, opt2, kind 2, calls2
-    RD = [('{"?":{"?":', 0, 0, 3, '{"?":?}', 0, 0, 3), ('[{"?":1},', 1, 1, 3, '{"?":1,"?":2}', 0, 0, 2), ('{"?":1,"?":2}', 1, 0, 2, '[?,?', 0, 1, 3), ('??', 0, 1, 2, '{"?":1,"?":2}', 0, 1, 2)]
+    RD = [('{"?":{"?":', 0, 0, 3, '{"?":?}', 0, 0, 2), ('[{"?":1},', 1, 1, 3, '{"?":1,"?":2}', 0, 0, 2), ('{"?":1,"?":2}', 1, 0, 2, '[?,?', 0, 1, 2), ('[?', 0, 1, 2, '{"?":1,"?":2}', 0, 1, 2)]
     if not q:
-        RD += [('{"?":{"?":', 1, 1, 4, '{"?":?}', 0, 1, 3), ('[[?,{"?":', 0, 0, 4, '[{"?":?}]', 0, 0, 4), ('???', 2, 0, 3, '???', 0, 0, 3)]
+        RD += [('{"?":{"?":', 0, 0, 3, '{"?":?}', 0, 0, 3), ('{"?":1,"?":2}', 1, 0, 2, '[?,?', 0, 1, 3), ('??', 0, 1, 2, '{"?":1,"?":2}', 0, 1, 2), ('{"?":{"?":', 1, 1, 4, '{"?":?}', 0, 1, 3), ('[[?,{"?":', 0, 0, 4, '[{"?":?}]', 0, 0, 4), ('???', 2, 0, 3, '???', 0, 0, 3)]
     for r in RD:
         L.append(ob("reset/dec/%s,o%d,r%d,k%d/then/%s,o%d,r%d,k%d" % r, P, "VerifC18ResetDec", list(r), covers=["end", "first-use-ended-in-error", "first-use-left-nested"]))
     RE = [('{"?":{"?":', 0, 0, '{"?":?}', 0, 0, False), ('[{"?":1},', 1, 1, '{"?":1,"?":2}', 0, 0, True), ('{"?":1,"?":2}', 4, 0, '[?,{"?":1}]', 3, 1, False), ('[?', 0, 1, '{"?":1,"?":2}', 0, 1, True)]
